@@ -186,3 +186,33 @@ package p2pke
 //@     invariant !ghost(gotApp) && appData == old(appData)
 //@     invariant ghost(promoted) || (c.sessions[0] == old(c.sessions[0]) && c.sessions[1] == old(c.sessions[1]))
 //@     invariant !ghost(promoted) ==> c.remoteKey == old(c.remoteKey)
+//@
+//@ func (*Channel).getOrInit
+//@   noframe
+//@   requires inv(c)
+//@   ensures inv(c)
+//@   ensures [current] ret1 == nil ==> ret0 != nil && ret0 == c.sessions[1].Session
+//@   ensures ret1 != nil ==> ret0 == nil
+//@   loop 0:
+//@     invariant inv(c)
+//@
+//@ func (*Channel).onRekey$1
+//@   noframe
+//@   requires c != nil && inv(c)
+//@   ensures inv(c)
+//@   ensures ret0 == nil && ret1 == nil
+//@   ensures [keepalive] old(c.sessions[1].Session) != nil && now <= old(c.sessions[1].Session.expiresAt) && now - c.lastReceived <= c.params.KeepAliveTimeout ==> c.sessions[1] == old(c.sessions[1])
+//@
+//@ func (*Channel).onHandshake$1
+//@   requires c != nil && inv(c)
+//@   noframe
+//@   ensures inv(c)
+//@   loop 0:
+//@     invariant 0 <= _i && _i <= 3 && inv(c) && c == old(c)
+//@
+//@ func (*Channel).Send$1
+//@   noframe
+//@   requires s != nil && inv(s)
+//@   ensures inv(s)
+//@   ensures [ready] ret1 == nil ==> sready(old(s.isInit), old(s.hsIndex)) && old(s.nonce) >= 16 && s.nonce == old(s.nonce) + 1
+//@   ensures ret1 != nil ==> ret0 == nil && s.nonce == old(s.nonce)
